@@ -4,9 +4,6 @@ import (
 	"bytes"
 	"errors"
 	"io"
-	"io/fs"
-	"os"
-	"time"
 
 	"github.com/tink-crypto/tink-go/v2/keyset"
 	"github.com/tink-crypto/tink-go/v2/tink"
@@ -57,12 +54,7 @@ func verifEnvReset() {
 	verifBinReaders = map[*keyset.BinaryReader]io.Reader{}
 	verifBufs = map[*bytes.Buffer][]byte{}
 	verifReaders = map[*bytes.Reader][]byte{}
-	verifFS.files = map[string]*verifInode{}
-	verifFS.open = map[*os.File]*verifOpenFile{}
-	verifFS.tmpSeq = 0
-	verifFS.faults = false
-	verifFS.crashes = false
-	verifFS.livePath = ""
+	verifFSReset()
 }
 
 func verifHandleWithID(id uint64) *keyset.Handle {
@@ -149,237 +141,3 @@ func verifStubBufWrite(b *bytes.Buffer, p []byte) (int, error) {
 
 func verifStubBufBytes(b *bytes.Buffer) []byte { return verifBufs[b] }
 
-// ============ file-system model (DESIGN §4.3) ============
-
-type verifInode struct {
-	content   []byte
-	complete  bool // content is exactly what one Write call was given (no partial write)
-	durable   []byte
-	durableOK bool // durable content is a complete document (synced after a complete write), or the old file
-	mode      os.FileMode
-	written   bool
-	dir       bool
-}
-
-type verifOpenFile struct {
-	name   string
-	ino    *verifInode
-	closed bool
-}
-
-var verifFS struct {
-	files    map[string]*verifInode
-	open     map[*os.File]*verifOpenFile
-	tmpSeq   int
-	faults   bool // every call may fail
-	crashes  bool // the process may die before any call
-	livePath string
-	onCrash  func()
-}
-
-type verifCrash struct{}
-
-// verifFSStep: before every FS call the process may be killed.
-func verifFSStep(what string) {
-	ghostLog("fs.call")
-	if verifFS.crashes {
-		if nondetBool("crash.before." + what) {
-			ghostLog("fs.crash")
-			panic(verifCrash{})
-		}
-	}
-}
-
-func verifFSFail(what string) bool {
-	if verifFS.faults {
-		if nondetBool("fault." + what) {
-			ghostLog("fs.fault")
-			return true
-		}
-	}
-	return false
-}
-
-type verifFileInfo struct {
-	mode os.FileMode
-}
-
-func (fi verifFileInfo) Name() string       { return "verif" }
-func (fi verifFileInfo) Size() int64        { return 0 }
-func (fi verifFileInfo) Mode() fs.FileMode  { return fi.mode }
-func (fi verifFileInfo) ModTime() time.Time { return time.Time{} }
-func (fi verifFileInfo) IsDir() bool        { return fi.mode.IsDir() }
-func (fi verifFileInfo) Sys() any           { return nil }
-
-func verifStubStat(name string) (os.FileInfo, error) {
-	verifFSStep("stat")
-	if verifFSFail("stat") {
-		return nil, verifErrInjected
-	}
-	ino := verifFS.files[name]
-	if ino == nil {
-		return nil, fs.ErrNotExist
-	}
-	if ino.dir {
-		return verifFileInfo{mode: fs.ModeDir | 0700}, nil
-	}
-	return verifFileInfo{mode: ino.mode}, nil
-}
-
-func verifStubReadFile(name string) ([]byte, error) {
-	ghostLog("fs.read")
-	if verifFSFail("readfile") {
-		return nil, verifErrInjected
-	}
-	ino := verifFS.files[name]
-	if ino == nil {
-		return nil, fs.ErrNotExist
-	}
-	return ino.content, nil
-}
-
-func verifStubCreateTemp(dir, pattern string) (*os.File, error) {
-	verifFSStep("createtemp")
-	if verifFSFail("createtemp") {
-		return nil, verifErrInjected
-	}
-	verifFS.tmpSeq++
-	name := dir + "/" + pattern + "." + string(rune('0'+verifFS.tmpSeq))
-	ino := &verifInode{mode: 0600}
-	verifFS.files[name] = ino
-	f := new(os.File)
-	verifFS.open[f] = &verifOpenFile{name: name, ino: ino}
-	assert("temp-in-same-directory", dir == verifDirOf(verifFS.livePath))
-	return f, nil
-}
-
-func verifDirOf(p string) string {
-	for i := len(p) - 1; i >= 0; i-- {
-		if p[i] == '/' {
-			if i == 0 {
-				return "/"
-			}
-			return p[:i]
-		}
-	}
-	return "."
-}
-
-func verifStubFileName(f *os.File) string { return verifFS.open[f].name }
-
-func verifStubFileWrite(f *os.File, p []byte) (int, error) {
-	verifFSStep("write")
-	of := verifFS.open[f]
-	assert("secret-bearing-file-owner-only", of.ino.mode&0077 == 0)
-	if verifFSFail("write") {
-		// an arbitrary prefix may have reached the file
-		of.ino.content, of.ino.complete, of.ino.written = nil, false, true
-		return 0, verifErrInjected
-	}
-	of.ino.complete = !of.ino.written
-	of.ino.content = p
-	of.ino.written = true
-	ghostLog("fs.write")
-	return len(p), nil
-}
-
-func verifStubFileChmod(f *os.File, perm os.FileMode) error {
-	verifFSStep("chmod")
-	if verifFSFail("chmod") {
-		return verifErrInjected
-	}
-	verifFS.open[f].ino.mode = perm
-	return nil
-}
-
-func verifStubFileSync(f *os.File) error {
-	verifFSStep("sync")
-	if verifFSFail("sync") {
-		return verifErrInjected
-	}
-	ino := verifFS.open[f].ino
-	ino.durable, ino.durableOK = ino.content, ino.complete
-	ghostLog("fs.sync")
-	return nil
-}
-
-func verifStubFileClose(f *os.File) error {
-	verifFSStep("close")
-	of := verifFS.open[f]
-	of.closed = true
-	if verifFSFail("close") {
-		return verifErrInjected
-	}
-	return nil
-}
-
-func verifStubRemove(name string) error {
-	verifFSStep("remove")
-	if verifFSFail("remove") {
-		return verifErrInjected
-	}
-	assert("live-file-never-removed", name != verifFS.livePath)
-	delete(verifFS.files, name)
-	return nil
-}
-
-func verifStubRename(oldpath, newpath string) error {
-	verifFSStep("rename")
-	if verifFSFail("rename") {
-		return verifErrInjected
-	}
-	ino := verifFS.files[oldpath]
-	if ino == nil {
-		return fs.ErrNotExist
-	}
-	if newpath == verifFS.livePath {
-		// the document that becomes the live file must be complete and already on stable storage
-		assert("rename-after-complete-write", and(ino.complete, ino.written))
-		assert("rename-after-fsync", and(ino.durableOK, sameBacking(ino.durable, ino.content)))
-		assert("live-file-owner-only", ino.mode&0077 == 0)
-	}
-	verifFS.files[newpath] = ino
-	delete(verifFS.files, oldpath)
-	ghostLog("fs.rename")
-	return nil
-}
-
-// Writing a path in place (truncate, then write) is exactly what must never happen to the live file.
-func verifStubOSWriteFile(name string, data []byte, perm os.FileMode) error {
-	verifFSStep("oswritefile")
-	assert("live-file-never-written-in-place", name != verifFS.livePath)
-	ino := verifFS.files[name]
-	if ino == nil {
-		ino = &verifInode{mode: perm}
-		verifFS.files[name] = ino
-	}
-	ino.content, ino.complete, ino.written = data, true, true
-	return nil
-}
-
-var verifOpenFlags struct {
-	name string
-	flag int
-	perm os.FileMode
-	n    int
-}
-
-func verifStubOpenFile(name string, flag int, perm os.FileMode) (*os.File, error) {
-	verifFSStep("openfile")
-	if flag&(os.O_WRONLY|os.O_RDWR|os.O_TRUNC) != 0 {
-		assert("live-file-never-opened-for-writing", name != verifFS.livePath)
-	}
-	verifOpenFlags.name, verifOpenFlags.flag, verifOpenFlags.perm = name, flag, perm
-	verifOpenFlags.n++
-	if verifFSFail("openfile") {
-		return nil, verifErrInjected
-	}
-	ino := verifFS.files[name]
-	if ino == nil {
-		ino = &verifInode{mode: perm}
-		verifFS.files[name] = ino
-	}
-	f := new(os.File)
-	verifFS.open[f] = &verifOpenFile{name: name, ino: ino}
-	return f, nil
-}
